@@ -1,6 +1,7 @@
 package main
 
 import (
+	"golang.org/x/net/idna"
 	"fmt"
 	"sort"
 	"strings"
@@ -174,6 +175,49 @@ func init() {
 			addValid(d, now, "shape")
 			got := util.IsInTLDMap(d)
 			out.Add("ever", Case{Coq: fmt.Sprintf("(%s, %s)", cqBytes(d), cqBool(got)), Tag: fmt.Sprint(got), Desc: map[string]interface{}{"label": d, "in": got}})
+		}
+		// spellings that are equivalent to a table key only after some normalisation (IDNA U-labels, full-width letters,
+		// the degenerate A-label xn--<ascii>-, trailing dot, percent escapes): the table is keyed by the label as written,
+		// lower-cased; direct monitor: a valid TLD is a table key
+		directTLD := func(d string, why string) {
+			got := util.HasValidTLD(d, now)
+			labels := strings.Split(strings.ToLower(d), ".")
+			_, isKey := m[labels[len(labels)-1]]
+			if got && !isKey {
+				out.Violate("C18|valid-but-not-a-table-key:"+why, fmt.Sprintf("HasValidTLD(%q) is true although %q is not a key of the delegation table", d, labels[len(labels)-1]),
+					map[string]interface{}{"domain": d, "why": why}, false, true)
+			}
+			if util.IsInTLDMap(d) != isKey {
+				out.Violate("C18|in-map-disagrees:"+why, fmt.Sprintf("IsInTLDMap(%q) = %v although the table key test says %v", d, !isKey, isKey), map[string]interface{}{"domain": d}, isKey, !isKey)
+			}
+		}
+		fullwidth := func(s string) string {
+			var b strings.Builder
+			for _, r := range s {
+				if r >= 'a' && r <= 'z' {
+					b.WriteRune(r - 'a' + 0xFF41)
+				} else {
+					b.WriteRune(r)
+				}
+			}
+			return b.String()
+		}
+		for i, k := range keys {
+			if i%7 != 0 && tier() != "thorough" && !strings.HasPrefix(k, "xn--") {
+				continue
+			}
+			if strings.HasPrefix(k, "xn--") {
+				if u, err := idna.ToUnicode(k); err == nil && u != k {
+					directTLD("example."+u, "u-label")
+				}
+				continue
+			}
+			directTLD("example.xn--"+k+"-", "degenerate-a-label")
+			directTLD("EXAMPLE.XN--"+strings.ToUpper(k)+"-", "degenerate-a-label-upper")
+			directTLD("example."+fullwidth(k), "full-width")
+			directTLD("example."+k+".", "trailing-dot")
+			directTLD("example."+k+"\u200d", "zero-width-joiner")
+			directTLD("example.%"+fmt.Sprintf("%02x", k[0])+k[1:], "percent-escape")
 		}
 		for i := 0; i < 150; i++ {
 			k := pick(rng, keys)
